@@ -151,6 +151,15 @@ func (f *File) syncWithoutLocking() error {
 					f.log,
 				)
 
+				// Commit the content with the entry's current attributes instead of those cached when the file was opened
+				var info fs.FileInfo = f.info
+				if hdr, err := inventory.Stat(f.metadata, f.path, false, f.onHeader); err == nil {
+					hdr.Size = size
+
+					f.info = NewFileInfoFromTarHeader(hdr, f.log)
+					info = hdr.FileInfo()
+				}
+
 				return config.FileConfig{
 					GetFile: func() (io.ReadSeekCloser, error) {
 						if _, err := f.writeBuf.Seek(0, io.SeekStart); err != nil {
@@ -159,7 +168,7 @@ func (f *File) syncWithoutLocking() error {
 
 						return f.writeBuf, nil
 					},
-					Info: f.info,
+					Info: info,
 					Path: f.path,
 					Link: f.link,
 				}, nil
